@@ -5,7 +5,7 @@ SPEC = {
     "runners": [{
         "kind": "wqcases", "module": "CorrC04", "harness": "wqscript", "prop": "C04",
         "corr": "Run/CorrC04.v + Run/CorrWQ.v (model of the work queue vs /repo/workqueue, scripted schedules)",
-        "rule": 'scripted: each case = one script (Enqueue with 1..3 producers blocked at a time, work completion with nil/error, Dequeue, subscriber receive, resize; one stimulus at a time, quiescence from goroutine stacks) run on the real queue and replayed in Coq on Model/WQ.v with every interleaving of internal steps explored; observed = started work functions, returned Enqueue calls, WorkItems() (name, priority, state). Generated as corpus (Findings witnesses), every word over {enqueue p1, enqueue p2, finish oldest, finish newest} up to a length bound for W,L in a small grid, adaptive random scripts that fill the queue. distinct = by (W, L, stimuli); every synchronous API call of a script (Errors, Dequeue, SetPriority, ResizeQueueLength, Stop, Break) runs under a watchdog: if it has not returned at a quiescent moment the script ends there and the case is a violation (callers never hang), after the 3x reproduction; corpus scripts call Errors() again while an earlier error waits for a subscriber that has not read yet. non-trivial = some item had to wait (was not started by its own Enqueue).',
+        "rule": 'scripted: each case = one script (Enqueue with 1..3 producers blocked at a time, work completion with nil/error, Dequeue, subscriber receive, resize; one stimulus at a time, quiescence from goroutine stacks) run on the real queue and replayed in Coq on Model/WQ.v with every interleaving of internal steps explored; observed = started work functions, returned Enqueue calls, WorkItems() (name, priority, state). Generated as corpus (Findings witnesses), every word over {enqueue p1, enqueue p2, finish oldest, finish newest} up to a length bound for W,L in a small grid, adaptive random scripts that fill the queue. distinct = by (W, L, stimuli); every synchronous API call of a script (Errors, Dequeue, SetPriority, ResizeQueueLength, Stop, Break) runs under a watchdog: if it has not returned at a quiescent moment the script ends there and the case is a violation (callers never hang), after the 3x reproduction; corpus scripts call Errors() again while an earlier error waits for a subscriber that has not read yet. every third random script is Dequeue/SetPriority-bearing without errors or subscribers, plus corpus scripts with several Dequeue calls on a heap whose array layout is not sorted; the black-box monitor of C16 (nil-dequeued items never start, other calls change nothing, every accepted item that was not dequeued has started when the script has run to completion) is applied to all C04 scripts. non-trivial = some item had to wait (was not started by its own Enqueue).',
     }, {
         "kind": "wqstress", "name": "stress", "prop": "C04",
         "rule": 'free-running: each case = one queue under real scheduling (built with -race): P producers x items with random priorities and durations; evaluated = per-item run counters (exactly once), watchdog (nothing lost, no Enqueue hangs), max concurrency <= W, distinct ids, WorkItems() empty at the end and well-formed in flight; non-trivial = more items than W+L+1 (the queue filled and producers had to wait).',
